@@ -5,9 +5,10 @@ from vlib import core
 IMPLS = ["hash", "skip", "trie"]
 
 
-def consts(impl, keys, nval, maxiter, masks, usefree):
-    return 'CONSTANTS Impl = "%s"  Keys = {%s}  NVal = %d  MaxIter = %d  Masks = {%s}  UseFree = %s\n' % (
-        impl, ", ".join(map(str, keys)), nval, maxiter, ", ".join(map(str, masks)), "TRUE" if usefree else "FALSE")
+def consts(impl, keys, nval, maxiter, masks, usefree, tags=(0,)):
+    return 'CONSTANTS Impl = "%s"  Keys = {%s}  NVal = %d  MaxIter = %d  Masks = {%s}  UseFree = %s  Tags = {%s}\n' % (
+        impl, ", ".join(map(str, keys)), nval, maxiter, ", ".join(map(str, masks)), "TRUE" if usefree else "FALSE",
+        ", ".join(map(str, tags)))
 
 
 def to_lines(h):
@@ -18,12 +19,12 @@ TRACE_INV = "INVARIANT TypeOK\nINVARIANT IterBook\nINVARIANT EndedComplete\nINVA
 
 
 def trace_cfg(ctx, impl):
-    return ctx.cfg("MapTrace_%s.cfg" % impl, consts(impl, range(1, 9), 9, 4, [1, 2, 3, 4, 5, 6, 7], True) +
+    return ctx.cfg("MapTrace_%s.cfg" % impl, consts(impl, range(1, 9), 9, 4, [1, 2, 3, 4, 5, 6, 7], True, (0, 1, 2)) +
                    "SPECIFICATION TraceSpec\n" + TRACE_INV + "POSTCONDITION TraceAccepted\nCHECK_DEADLOCK FALSE\n")
 
 
-def gen(ctx, impl, keys, nval, maxiter, masks, usefree, mode, depth, how, num=0, tag=""):
-    cfg = ctx.cfg("MapGen_%s_%s%s.cfg" % (impl, mode, tag), consts(impl, keys, nval, maxiter, masks, usefree) +
+def gen(ctx, impl, keys, nval, maxiter, masks, usefree, mode, depth, how, num=0, tag="", tags=(0,)):
+    cfg = ctx.cfg("MapGen_%s_%s%s.cfg" % (impl, mode, tag), consts(impl, keys, nval, maxiter, masks, usefree, tags) +
                   "SPECIFICATION GenSpec\nCONSTRAINT Emit\nCHECK_DEADLOCK FALSE\n")
     return ctx.generate("MapGen.tla", cfg, mode=how, num=num, depth=depth + 2,
                         consts={"DEPTH": depth, "MODE": mode}, tag="gen-%s-%s%s" % (impl, mode, tag))
